@@ -85,6 +85,11 @@ PROPS = {
              "distinct = operation/result trace",
              {"runs": 12000, "budget_s": 30}, {"runs": 1200000, "budget_s": 900},
              must={"all": ["reads-past-limits", "reads-inside-limits", "system-reads-past-limits", "system-reads-inside-limits"]}),
+    "C18": P("plans = 2-3 OIDC filters in different chains (header match), distinct or equal cookie names, providers, client ids and timeouts, over four store topologies (shared memory store, shared Redis, "
+             "distinct Redis servers, mixed); a browser logs in at one filter and presents that session to the others under their cookie names (alone, with both cookies, mid-login at the other "
+             "filter's callback), keeps a legitimate session at each, and every filter's own session is probed 2 s before and after that filter's own limits; "
+             "non-trivial = a session of one filter was presented to another; distinct = canonical event trace",
+             {"runs": 4000, "budget_s": 30}, {"runs": 400000, "budget_s": 900}, must={"all": ["foreign-session-presented", "own-limits-probed"]}),
 }
 
 
